@@ -216,6 +216,8 @@ def layout_fn(P, u, rep, fname, union):
 
     def run_mode(mode, cls, packed):
         def cut_sud(it, ctx, call, args):
+            if args and isinstance(args[0], _Ref):
+                args[0].place.set(it, Obj('Token', lazy=True, label='after-declaration'))     # contract: *rest = the token after the specifier
             return mk_state(ctx, cls, packed)
 
         def on_entry(it, env):
@@ -844,13 +846,27 @@ def r083_definition(P, u, rep):
         if need not in callees:
             rep.undecided('R08.3', base, 'struct_union_decl() does not call %s() any more: shape not recognised' % need, where=where)
             return
-    # type lookups (tag scope): calls that yield a `Type *` and are not constructors of type.c
-    lookups = set()
-    for name, c in callees.items():
-        t = ' '.join((c.dtype or c.type or '').split())
-        if t in ('Type *', 'void *', 'struct Type *') and name not in tu.functions and name not in ('calloc', 'malloc'):
-            lookups.add(name)
-    opaque = sorted(n for n in callees if n not in lookups and n not in tu.functions and n not in ('attribute_list', 'struct_members'))
+    # callees, transitively through helpers of parse.c that take a type and yield a type (they may copy / register it: looked into).
+    # tag lookups = calls that yield a `Type *` (or void *) without being given one and are not constructors of type.c: answered both ways.
+    lookups, opaque, inlined, work = set(), set(), {fname}, [fn]
+    while work:
+        f = work.pop()
+        for c in f.calls():
+            name = c.callee()
+            if not name or name in ('attribute_list', 'struct_members') or name in tu.functions or name in ('calloc', 'malloc') or name in inlined:
+                continue
+            t = ' '.join((c.dtype or c.type or '').split()).replace('struct ', '')
+            if t in ('Type *', 'void *'):
+                takes_type = any(' '.join((p.type or '').split()).replace('struct ', '') == 'Type *' for p in u.params(name))
+                if takes_type and u.fn(name) is not None:
+                    inlined.add(name)
+                    work.append(u.fn(name))
+                else:
+                    lookups.add(name)
+            else:
+                opaque.add(name)
+    opaque = sorted(opaque - lookups)
+    elsewhere = sorted(f for f, d in u.functions.items() if f not in inlined and d.calls('attribute_list'))
     results = {}       # (tagcase, what) -> [ok, msg]
     seen = set()
     for scenario in ('none', 'leading', 'trailing'):
@@ -858,6 +874,8 @@ def r083_definition(P, u, rep):
             ty = args[1] if len(args) > 1 else None
             ty = it.settle(ty) if isinstance(ty, View) else ty
             after = getattr(ctx, 'c08_members', None) is not None
+            if after:
+                ctx.c08_trailing = True
             if not isinstance(ty, Obj):
                 raise AnalysisBroken('attribute_list() is applied to %r, not to a type object' % (ty,))
             if scenario != 'none' and (scenario == 'trailing') == after:
@@ -918,7 +936,7 @@ def r083_definition(P, u, rep):
 
             def put(what, ok, msg):
                 cur = results.get((case, what))
-                if cur is None or (cur[0] and not ok):
+                if cur is None or (cur[0] and not ok) or (cur[0] is None and ok is False):
                     results[(case, what)] = [ok, msg]
             tagtxt = {'untagged': 'an untagged struct/union', 'new-tag': 'a struct/union whose tag is new in the scope',
                       'known-tag': 'a struct/union whose tag was already declared (forward declaration, or `struct T *` inside its own body)'}[case]
@@ -932,6 +950,9 @@ def r083_definition(P, u, rep):
                     'struct_decl/union_decl expect a complete empty type (size 0, alignment 1, not packed)' % (tagtxt, sz, al, pk))
             else:
                 ok = isinstance(pk, (int, bool)) and bool(pk) and _is_just(al, 'AL')
+                if not ok and scenario == 'trailing' and not getattr(ctx, 'c08_trailing', False) and elsewhere:
+                    put(scenario + '-attributes', None, 'struct_union_decl() does not read the attributes after the closing brace on this path, but %s() call(s) attribute_list(): shape not recognised' % '/'.join(elsewhere))
+                    continue
                 pos = 'before the tag' if scenario == 'leading' else 'after the closing brace'
                 put(scenario + '-attributes', ok, '__attribute__((packed, aligned(N))) written %s of %s does not reach the type that is laid out '
                     '(returned type: is_packed %r, alignment %r): its members are placed and its size is computed as if the attribute were absent' % (pos, tagtxt, pk, al))
